@@ -97,15 +97,26 @@ def r2(prog, run):
     if not writes or not incs:
         raise AnalysisBroken('C19.R2: writeData / sequence advance not found in ibbDataIqReceived')
 
+    # the job is the local that holds the result of the (sender, session id) lookup
+    job_decl = {d['var'] for _, n in rx.all_nodes('decl') for d in n['decls']
+                if d.get('init') is not None and rx.nodes[rx.skip(d['init'])]['k'] == 'call' and rx.cname(rx.nodes[rx.skip(d['init'])]).endswith('::getIncomingJobBySid')}
+    if len(job_decl) != 1:
+        raise AnalysisBroken('C19.R2: the local holding the looked-up job not found in ibbDataIqReceived')
+    job_decl = job_decl.pop()
+
+    def is_job(f, nid):
+        m = f.nodes[f.skip(nid)]
+        return m['k'] == 'var' and m.get('decl') == job_decl and f.id == rx.id
+
     def case(kind):
         def custom(f, nid, st):
             n = f.nodes[nid]
             bo = f.binop(nid)
-            if kind == 'nojob' and n['k'] == 'un' and n['op'] == '!' and f.nodes[f.skip(n['e'])].get('name') == 'job':
+            if kind == 'nojob' and n['k'] == 'un' and n['op'] == '!' and is_job(f, n['e']):
                 return (True,)
-            if kind == 'nojob' and n['k'] == 'var' and n.get('name') == 'job' and n.get('vk') == 'local':
+            if kind == 'nojob' and is_job(f, nid) and n['k'] == 'var':
                 return (False,)
-            if kind != 'nojob' and n['k'] == 'un' and n['op'] == '!' and f.nodes[f.skip(n['e'])].get('name') == 'job':
+            if kind != 'nojob' and n['k'] == 'un' and n['op'] == '!' and is_job(f, n['e']):
                 return (False,)
             if kind == 'wrongstate' and bo and bo[0] in ('!=', '==') and 'QXmppTransferJob::state()' in f.fmt(nid) and 'TransferState' in f.fmt(nid):
                 return (bo[0] == '!=',)
@@ -127,6 +138,16 @@ def r2(prog, run):
             if n['k'] == 'call' and f.cname(n) == 'QXmppIq::setType' and n.get('args'):
                 v = f.const_value(n['args'][0])
                 return st + ((v[1].split('::')[-1] if v else '?'),)
+            if n['k'] == 'call' and not n.get('op'):
+                # a same-file helper that turns the response it is handed into an error reply
+                for g in prog.callee_fns(f, n):
+                    if g.file == f.file and g.entry is not None and g.id != f.id:
+                        for j, m in g.calls('QXmppIq::setType'):
+                            o = g.nodes[g.skip(m['obj'])] if m.get('obj') is not None else {}
+                            v = g.const_value(m['args'][0]) if m.get('args') else None
+                            pos = g.pos(j)
+                            if o.get('vk') == 'param' and v and pos and (pos[0] == g.entry or ('b', pos[0]) in g.pdom().get(('b', g.entry), set())):
+                                return st + (v[1].split('::')[-1],)
             return None
         exits, _ = cfgx.explore(rx, (), transfer, evc)
         if any(res[x] is not None for x in writes + incs):
@@ -175,11 +196,10 @@ def r3(prog, run):
             n = f.nodes[nid]
             bo = f.binop(nid)
             t = f.fmt(nid)
-            if bo and bo[0] == '&&':
-                lt = f.fmt(bo[1])
-                # "<announced> && <differs>": the announcement is assumed for the case under test
-                if kind == 'size' and lt.endswith('QXmppTransferFileInfo::size()'):
-                    return (holder['ev'].ev(bo[2], st),)
+            # the announcement is assumed for the case under test: the announced size is non-zero (true in a boolean context, whatever the spelling:
+            # "size() && differs", "!size() || equal", guard clauses)
+            if kind == 'size' and n['k'] == 'call' and f.cname(n) == 'QXmppTransferFileInfo::size':
+                return (True,)
             if kind == 'size' and bo and bo[0] in ('!=', '==') and '.done' in t and 'QXmppTransferFileInfo::size()' in t:
                 return (bo[0] == '!=',)
             if kind == 'hash':
@@ -191,9 +211,6 @@ def r3(prog, run):
         holder['ev'] = cfgx.Evaluator(cd, {}, custom=custom)
 
         def evc(f, c, st):
-            n = f.nodes[f.skip(c)]
-            if kind == 'size' and n['k'] == 'call' and f.cname(n) == 'QXmppTransferFileInfo::size':
-                return True
             return holder['ev'].ev(c, st)
         return evc
     for kind, label in (('size', 'a size was announced and the received byte count differs'), ('hash', 'a hash was announced and the computed hash differs')):
